@@ -1005,6 +1005,11 @@ fn evaluate(plan: &PlanB, kernel: &Arc<Kernel>, sh: &Sh, sent_at_ns: &[u64], _en
                     let rcode_same = if m.tc() && m.opt().is_none() { rcode & 0xf == um.rcode() & 0xf } else { rcode == um.rcode() };
                     if !rcode_same {
                         res.violate("C03", "C03.rcode_differs", format!("upstream rcode {} relayed as {}", um.rcode(), rcode), qi);
+                        if um.rcode() > 15 || rcode > 15 {
+                            /* the 12-bit rcode is split between header and OPT ttl: on the forwarder
+                             * path it only passes through erbium's decoder and encoder */
+                            res.violate("C14", "C14.extended_rcode_changed_by_reencoding", format!("upstream rcode {} (12 bits across header and OPT) came out as {} after decode and re-encode", um.rcode(), rcode), qi);
+                        }
                     }
                     if missing != m.tc() {
                         res.violate("C04", if missing { "C04.records_missing_without_tc" } else { "C04.tc_set_on_complete_response" }, format!("{}: upstream reply #{} has {}/{}/{} records, response has {}/{}/{}, TC={}", q.qname.to_text(), rep.serial, expected[0].len(), expected[1].len(), expected[2].len(), got[0].len(), got[1].len(), got[2].len(), m.tc()), qi);
